@@ -1,6 +1,7 @@
 import Driver.Util
 import MpcVerif.Model.Builders
 import MpcVerif.Model.BuildersHist
+import MpcVerif.Model.BuildersOpnd
 
 namespace Drv.C07
 open Mpc Mpc.Bld Drv
@@ -84,21 +85,28 @@ def nat! (s : String) : Nat := s.toNat?.getD 0
 /-! ### Builder histories on one state (Model/BuildersHist.lean) -/
 
 /-- One call of a history as written by harness/cmd/c07/hist.go:
-`<builder>,<nz>,<par>,<x>,<y>,<w>` with operands `b<k>.<lo>.<len>` or `-`. -/
+`<builder>,<nz>,<par>,<x>,<y>,<w>`; an operand is `-` or a `+`-separated list of
+pieces `b<k>.<lo>.<len>` (bus slice), `z<n>` (n copies of the zero wire),
+`o<n>` (n copies of the one wire), least significant first
+(Model/BuildersOpnd.lean). -/
 structure HStep where
   name : String
   nz : Nat
   par : Nat
-  x : Nat × Nat × Nat
-  y : Nat × Nat × Nat
-  w : Nat × Nat × Nat
+  x : List Piece
+  y : List Piece
+  w : List Piece
 
-def parseSrc (s : String) : Option (Nat × Nat × Nat) :=
-  if s == "-" then some (0, 0, 0) else
+def parsePiece (s : String) : Option Piece :=
+  if s.startsWith "z" then (s.drop 1).toString.toNat?.map Piece.zeros else
+  if s.startsWith "o" then (s.drop 1).toString.toNat?.map Piece.ones else
   if !s.startsWith "b" then none else
   match (s.drop 1).toString.splitOn "." with
-  | [k, lo, len] => some (nat! k, nat! lo, nat! len)
+  | [k, lo, len] => some (Piece.bus (nat! k) (nat! lo) (nat! len))
   | _ => none
+
+def parseSrc (s : String) : Option (List Piece) :=
+  if s == "-" then some [] else (s.splitOn "+").mapM parsePiece
 
 def parseStep (s : String) : Option HStep :=
   match s.splitOn "," with
@@ -114,11 +122,12 @@ def HStep.outWidth (st : HStep) : Nat :=
   if st.name == "udivmod" || st.name == "udivgold" || st.name == "udivlong" then 2 * st.nz else st.nz
 
 /-- The call of the history: the same generator `build` that the single-call
-ops use, applied to slices of the buses known so far. -/
-def HStep.call (gmw : Bool) (st : HStep) : Call := fun acc => do
-  let r ← build st.name gmw st.par (pick acc st.x.1 st.x.2.1 st.x.2.2) (pick acc st.y.1 st.y.2.1 st.y.2.2)
-    (pick acc st.w.1 st.w.2.1 st.w.2.2) st.nz
-  pure (r.getD [])
+ops use, applied to operand buses made of slices of the buses known so far and of the
+constant wires (`mkOperand`, in the order x, y, w). -/
+def HStep.call (gmw : Bool) (st : HStep) : Call :=
+  shapedCall3 (fun x y w => do
+    let r ← build st.name gmw st.par x y w st.nz
+    pure (r.getD [])) st.x st.y st.w
 
 def parseHist (inw steps : String) : Option (List Nat × List HStep) := do
   let st ← (steps.splitOn "|").mapM parseStep
